@@ -276,7 +276,7 @@ Definition xonsh_format (m : meta) (values : list raw) : str :=
     let q := xonsh_quote (value v) in
     let q' := if sm_matches (nospace m) (replace1 xonsh_sanitizer (value v)) then q else q ++ B [32] in
     json_object [Some (member (B [86;97;108;117;101]) (json_string q'));
-                 Some (member (B [68;105;115;112;108;97;121]) (json_string (display v)));
+                 Some (member (B [68;105;115;112;108;97;121]) (json_string (replace1 xonsh_sanitizer (display v))));
                  Some (member (B [68;101;115;99;114;105;112;116;105;111;110]) (json_string (trimmed_description (description v))));
                  Some (member (B [83;116;121;108;101]) (json_string (rstyle v)))]) values).
 
